@@ -883,7 +883,7 @@ func c14RetryBody(c *Ctx) { retryBodyFresh(c, func(string) bool { return true })
 
 func retryBodyFresh(c *Ctx, want func(fnKey string) bool) {
 	n := 0
-	for _, fn := range c.Funcs {
+	for _, fn := range c.subjects() {
 		if !want(fnKey(fn)) {
 			continue
 		}
